@@ -68,6 +68,20 @@ pub fn family<R: Rng>(rng: &mut R, fam: &str, n: usize, eps: f64) -> Vec<SpacePo
                 })
                 .collect()
         }
+        "chord-oblique" => {
+            // a straight line at distance d from the axis in direction alpha, z linear along it
+            let alpha: f64 = rng.gen_range(-PI..PI);
+            let d: f64 = *[0.1, 0.05, 0.12, rng.gen_range(0.03..0.15)].choose(rng).unwrap();
+            let slope: f64 = *[1.0, -0.5, 0.0, 3.0].choose(rng).unwrap();
+            let (nx, ny) = (alpha.cos(), alpha.sin());
+            (0..n)
+                .map(|i| {
+                    let s = -0.1 + 0.18 * i as f64 / (n.max(2) - 1) as f64 + eps * rng.gen_range(-1.0..1.0);
+                    let (x, y) = (d * nx - s * ny, d * ny + s * nx);
+                    sp(x.hypot(y), y.atan2(x), slope * s)
+                })
+                .collect()
+        }
         "repeated" => {
             let p = sp(rng.gen_range(0.11..0.18), rng.gen_range(-PI..PI), rng.gen_range(-1.0..1.0));
             vec![p; n]
@@ -325,7 +339,8 @@ pub fn run(runner: &mut Runner, descriptors: Option<&str>, seed: u64, thorough: 
         let fam = d["family"].as_str().unwrap();
         let n = d["n"].as_u64().unwrap() as usize;
         let eps = 10f64.powi(d["eps_exp"].as_i64().unwrap() as i32) * if d["eps_exp"].as_i64().unwrap() <= -30 { 0.0 } else { 1.0 };
-        for rep in 0..(if thorough { 3 } else { 2 }) {
+        let reps = if fam == "chord-oblique" && n <= 50 { if thorough { 120 } else { 40 } } else if thorough { 3 } else { 2 };
+        for rep in 0..reps {
             let pts = family(&mut rng, fam, n, eps);
             fit_case(runner, fam, format!("d{di}.{rep}"), pts, Some(&mut tracks));
         }
